@@ -440,7 +440,7 @@ class SpecGen:
     def body(self, top, depth, cls, chunked=False, in_case=False):
         rng = self.rng
         st = dict(chunked=chunked, names=set(), ints=[], body=[], bounded=True, fixed=0, unbounded_open=False, depth=depth, in_case=in_case,
-                  ff_risk=False)
+                  ff_risk=False, switched=set())
         if rng.random() < 0.06 and not chunked:
             it = rng.choice(['char', 'short', 'byte'])
             self.feat('dummy', 'sole')
@@ -612,7 +612,7 @@ class SpecGen:
                     b.append(L(ln, 'char'))
                     a['length'] = ln
                 b.append(A(nm, elem, **a))
-                if 'length' not in a:
+                if 'length' not in a or kind == 'str':       # elements without a length of their own are unbounded even when counted
                     self.mark_unbounded(st)
                     if tr != 'false' and st['chunked']:
                         pass
@@ -668,8 +668,11 @@ class SpecGen:
             if not st['ints'] or st['depth'] >= 2:
                 return self.instr(st, last)
             fname, ts, kind = rng.choice(st['ints'])
-            if any(i['tag'] == 'switch' and i['attrs']['field'] == fname for i in self.flat(b)):
+            # two switches on one field are "degenerate" (the second <field>_data member collides); `switched` is shared with the bodies of
+            # the chunked sections of this class
+            if fname in st['switched'] or any(i['tag'] == 'switch' and i['attrs']['field'] == fname for i in self.flat(b)):
                 return self.instr(st, last)
+            st['switched'].add(fname)
             cases = []
             if kind == 'enum':
                 e = next(x for x in self.enums if x['name'] == ts)
@@ -714,7 +717,10 @@ class SpecGen:
                 self.instr(inner, last=True)
             if not st['chunked'] and not inner['unbounded_open'] and rng.random() < 0.3:
                 # optional fields in two different chunks (a <break> resets the 'optional reached' state)
-                inner['body'] += [F(self.name(st), 'char', optional='true'), dict(BR), F(self.name(st), rng.choice(['char', 'short', 'string']), optional='true')]
+                lastty = rng.choice(['char', 'short', 'string'])
+                inner['body'] += [F(self.name(st), 'char', optional='true'), dict(BR), F(self.name(st), lastty, optional='true')]
+                if lastty == 'string':
+                    self.mark_unbounded(inner)       # an unbounded string ends the section: the struct is unbounded
                 st['opt_after_chunked'] = True
                 self.feat('field', 'optional', 'both-sides-of-break')
             b.append(CH(*inner['body']))
